@@ -1,7 +1,7 @@
 (** [run_line]: one case line in, one observation line out (model side of the
     correspondence check). *)
 From Coq Require Import String.
-From JP Require Import Base F64 Value Sig Slice JsonRead JsonPrint Functions Interp Lexer Parser History Serde Cli Wire Spec.SliceSpec Spec.Semantics Spec.SigSpec.
+From JP Require Import Base F64 Value Sig Slice JsonRead JsonPrint Functions Interp Lexer Parser History Serde Cli Wire Spec.SliceSpec Spec.Semantics Spec.SigSpec Render.
 
 Definition K_slice := Eval compute in s2l "slice".
 Definition K_index := Eval compute in s2l "index".
@@ -106,6 +106,19 @@ Definition run_fn (ts : list tok) : list tok :=
                 (let* (v, _) := call_impl (interp fuel_default default_runtime) fi args off in Ok v)
           | None => [K_ERR; K_nofunction]
           end
+      | _, _, _ => bad
+      end
+  | _ => bad
+  end.
+
+Definition K_render := Eval compute in s2l "render".
+
+(** render <expr> <line> <col> : the location block of Display for a JmespathError with these fields *)
+Definition run_render (ts : list tok) : list tok :=
+  match ts with
+  | [e; l; c] =>
+      match parse_str e, parse_nat l, parse_nat c with
+      | Some expr, Some line, Some col => [K_OK; print_str (location_block expr line col)]
       | _, _, _ => bad
       end
   | _ => bad
@@ -532,6 +545,7 @@ Definition run_tokens (ts : list tok) : list tok :=
       else if str_eqb k K_cmp then run_cmp r
       else if str_eqb k K_truthy then run_truthy r
       else if str_eqb k K_fn then run_fn r
+      else if str_eqb k K_render then run_render r
       else if str_eqb k K_specfn then run_specfn r
       else if str_eqb k K_parse_k then run_parse r
       else if str_eqb k K_speceval then run_speceval r
